@@ -240,4 +240,11 @@ def main(argv):
 
 
 if __name__ == "__main__":
-    sys.exit(main(sys.argv[1:]))
+    try:
+        rc = main(sys.argv[1:])
+    except SystemExit:
+        raise
+    except BaseException:
+        sys.stderr.write("HARNESS ERROR (unexpected exception)\n" + traceback.format_exc())
+        rc = 2
+    sys.exit(rc)
